@@ -177,6 +177,24 @@ def run_case(case):
         c.check(np.array_equal(Y, Y2), "transform_pure", "transforming the same array twice gives different results", tags)
         c.close(Y.mean(axis=0), np.zeros(D), "whitening_identity", "mean of the transformed training data", tags, atol=rt * float(np.abs(Wref).max()) * float(np.abs(X).max() + 1))
         c.close(np.cov(Y.T), np.eye(D), "whitening_identity", "covariance of the transformed training data", tags, rtol=rt, atol=rt)
+        # history: a later fit on unusable data (non-finite value / one sample) that RAISES, caught by the caller: the trained
+        # transform must still be the one it was (if the library accepts the data instead, the model legitimately changes)
+        for what, badX in (("a non-finite value", np.where(np.arange(n * D).reshape(n, D) == 0, np.nan, X)), ("an infinite value", np.where(np.arange(n * D).reshape(n, D) == 1 % (n * D), np.inf, X))):
+            W0, s0 = np.array(m.weights, float), np.array(m.input_subtract, float)
+            try:
+                import warnings
+
+                with warnings.catch_warnings():
+                    warnings.simplefilter("ignore")
+                    m.fit(badX.copy())
+            except Exception:  # noqa: BLE001
+                Y3 = np.asarray(m.transform(X.copy()), float)
+                c.check(np.array_equal(np.asarray(m.weights, float), W0) and np.array_equal(np.asarray(m.input_subtract, float), s0) and np.array_equal(Y3, Y),
+                        "failed_fit_keeps_model", f"after a fit on data with {what} raised, the transform of the training data changed", tags)
+                c.count("refused_fits")
+            else:
+                m.fit(_mk(X, case["kind"]))  # accepted: train again on the original data
+            c.transitions += 1
         return c.result(nontrivial=isinstance(case["kind"], list) or case["order"] != "given", sig="wh|%s|%s|%s|%s|%s|%s" % (case["data"], case["kind"], case["pinv"], case["order"], case.get("big"), case.get("colscale")))
     part = [PARTS[n][case["part"]][i] for i in idx]
     lm = LABELMAPS[case["lm"]]
